@@ -85,6 +85,14 @@ def catalog(tier, seed):
         "Diagonal(60 x 1/10) f32": rep([(tenth, 60)], "f32"),
         "Diagonal(500 x i/2, 3 x -1) c128": rep([(q(0, 1, 2), 500), (q(-1), 3)], "c128"),
         "Triangular(150 x 1/10, 51 x -2)": tri([(tenth, 150), (q(-2), 51)]),
+        # diagonal entries spanning more than 1/eps of the dtype (the determinant itself is O(1)): through the
+        # Triangular rule and, built as a Dense matrix, through LU
+        "Triangular(1e-9, 1e9, -3) spread": tri([(q(1, 0, 10**9), 1), (q(10**9), 1), (q(-3), 1)]),
+        "Dense<-Triangular(2e-9, 1e9, 5 x -1/2) spread": dict(tri([(q(2, 0, 10**9), 1), (q(10**9), 1), (q(-1, 0, 2), 5)]),
+                                                            **{"as": "dense"}),
+        "Triangular(1e-4 x2, 1e4 x2, -2) f32 spread": tri([(q(1, 0, 10**4), 2), (q(10**4), 2), (q(-2), 1)], "f32"),
+        "Dense<-Triangular(1e-4, 1e4, -2) f32 spread": dict(tri([(q(1, 0, 10**4), 1), (q(10**4), 1), (q(-2), 1)], "f32"),
+                                                          **{"as": "dense"}),
         "Permutation(501 points, 125 swaps)": swaps(501, 125),
         "Permutation(400 points, 200 swaps)": swaps(400, 200),
         "Kron(Scal(1/2,30), Diagonal(4x3,1x-1), Swaps(6,3))": kron(scal(half, 30), rep([(q(3), 4), (q(-1), 1)]),
@@ -123,7 +131,7 @@ def catalog(tier, seed):
 
 def strip(t):
     """The TLA+ tree (no dtype)."""
-    out = {k: v for k, v in t.items() if k != "dt"}
+    out = {k: v for k, v in t.items() if k not in ("dt", "as")}
     if "a" in out:
         out["a"] = [strip(x) for x in t["a"]]
     return out
@@ -143,6 +151,11 @@ def build_op(t):
         n = len(d)
         rs = np.random.RandomState(n)
         M = np.tril(rs.uniform(-0.5, 0.5, (n, n)), -1).astype(dt) + np.diag(d)
+        if t.get("as") == "dense":
+            # the same matrix as a plain Dense operator (LU path); off-diagonal entries scaled with their column so
+            # that partial pivoting keeps the diagonal as pivots
+            M = (np.tril(rs.uniform(-0.5, 0.5, (n, n)), -1) * np.abs(d)[None, :]).astype(dt) + np.diag(d)
+            return ops.Dense(M)
         return ops.Triangular(M, lower=True)
     if k == "Scal":
         dt = dts[t.get("dt", "f64")]
